@@ -50,7 +50,14 @@ def key_fn(model, names):
     return sort_key
 
 
+def _list_nodes(node):
+    var, bs = node
+    return [var, [(r, _list_nodes(t) if isinstance(t, tuple) else t) for r, t in bs]]
+
+
 def fmt_string(pieces):
+    if isinstance(pieces, str):
+        return pieces          # a raw format string (oracles only: format specs such as {i:02d})
     out = ''
     for p in pieces:
         if p == 'pre':
@@ -366,6 +373,9 @@ def _run_real(op):
         return j_tree(t)
     if name == 'reset_variables':
         t = py_tree(op['tree'])
+        if op.get('listNodes'):
+            t.node = (t.node[0], _list_nodes(t.node)[1])     # nested nodes spelled as lists
+
 
         def f():
             t.reset_variables(fmt_string(op['fmt']))
@@ -422,9 +432,17 @@ def _run_real(op):
         # indicate_branches has no None fallback for its model (signature: model: Model): always explicit
         return res(lambda: transform.indicate_branches(py_graph(op['graph']), py_model(op.get('model'))), j_graph)
     if name == 'graph_new':
-        g = Graph([py_triple(t) for t in op['triples']], top=op.get('top'),
+        trs = [py_triple(t) for t in op['triples']]
+        if op.get('listTriples'):
+            trs = [list(t) for t in trs]     # rows as loaded from JSON: the constructor makes tuples of them
+        g = Graph(trs, top=op.get('top'),
                   epidata={py_triple(t): [py_epi(e) for e in es] for t, es in op.get('epidata', [])},
                   metadata=dict((k, v) for k, v in op.get('metadata', [])))
+        if op.get('listTriples'):
+            # the graph owns plain tuples: set operations work and later edits of the rows do not show
+            _ = (g | g, g - g)
+            for row in trs:
+                row[1] = ':edited'
         return graph_full(g)
     if name == 'graph_filter':
         g = py_graph(op['graph'])
